@@ -3,6 +3,7 @@ package engine
 import (
 	"net/http"
 	"strings"
+	"time"
 
 	"github.com/zishang520/engine.io/v2/config"
 	"github.com/zishang520/engine.io/v2/transports"
@@ -70,4 +71,34 @@ func VerifH_C17_cookie() {
 		verif.Assert(rec.count("headers") == hh+1, "headers fires once for every response")
 	}
 	_ = types.NULL
+}
+
+// VerifH_C17_cookie_on_real_handshake: a real polling handshake end to end (real
+// HandleRequest, polling transport and HttpContext): the handshake response itself carries
+// the cookie and the initial_headers / headers events fire for it -- also when the
+// goroutine that writes the response runs before the handshaking goroutine continues
+// (symbolically: the scheduler may start a new goroutine at once; natively a slow 'drain'
+// listener holds the handshaking goroutine back).
+func VerifH_C17_cookie_on_real_handshake() {
+	opts := config.DefaultServerOptions()
+	opts.SetCookie(&http.Cookie{Name: "sess", Path: "/p"})
+	c := newPollClient(opts)
+	rec := &evRec{}
+	rec.listen(c.ps, "initial_headers", "headers")
+	if !verif.Symbolic() {
+		c.ps.On("drain", func(...any) { time.Sleep(60 * time.Millisecond) })
+	}
+	verif.PreemptBudget(1)
+	hs := c.request("GET", "")
+	verif.PreemptBudget(0)
+	if !verif.Symbolic() {
+		time.Sleep(150 * time.Millisecond)
+	}
+	verif.Assert(hs.answered() && c.sock != nil, "handshake answered")
+	if !hs.answered() || c.sock == nil {
+		return
+	}
+	sc := hs.w.hdr.Get("Set-Cookie")
+	verif.Assert(strings.HasPrefix(sc, "sess="+c.sid), "the handshake response carries the session cookie")
+	verif.Assert(rec.count("initial_headers") == 1 && rec.count("headers") == 1, "initial_headers and headers fire once for the handshake response")
 }
